@@ -4,6 +4,7 @@ import Proofs.PrebuildMech
 import PyxModel.Prebuild.Recipe
 import Proofs.PbShape          -- PBSHAPE: source tie of the flat builder
 import Proofs.PbShapeMore      -- PBSHAPE, continued: relate / unrelate, return with a value, more values, while / if
+import Proofs.PbShapeMore2     -- PBSHAPE, continued: the whole if chain with the handlers as oracles, `self`, create / select
 import Proofs.PrebuildFlatStmt   -- FLAT: the flat population model
 
 /-!
@@ -974,6 +975,102 @@ example : (callFn (mkEnv cmpDemoFc cmpDemoNd) 20 accept_IfNode [.node] [] cmpDem
 /-- applied, `selected` inside a where clause of the outer block -/
 example : (callFn (mkEnv cmpDemoFc {}) 20 accept_SelectedAccessNode [.node] [] cmpDemoG).map (fun r => (r.2.st.pop, r.2.tys))
     = some ([.blk true, .val 0, .slr 1], [(1, "inst_ref<Object>")]) := by decide
+
+/-! round 11: the if chain COMPOSED — the oracles of the elif list, of every elif and of the else clause are the HANDLERS
+    themselves (`handlerAcc`: `self.accept(child, act_if=…)` runs accept_ElIfListNode / accept_ElIfNode / accept_ElseNode on the
+    child's node); nothing is assumed about them any more.  What makes the composition go through: every builder function of
+    Flat.lean only APPENDS rows and keeps the handles of the scope stack (`Ext`, proved for `buildExpr`, `buildStmt`, `buildStmts`,
+    `buildElifs`, `buildElse` without any side condition), so the handler's ACT_SMT / ACT_BLK / ACT_IF rows are still there in the
+    state the children leave, and `BlkOK` is kept. -/
+
+/-- append-only, for every statement (no side condition): the rows that were there stay where they are, the scope stack keeps
+    its handles -/
+theorem builder_only_appends (fc : FCtx) (s : Stmt) (prev : Option Nat) (st : St) :
+    (∃ d, (buildStmt fc prev s st).2.pop = st.pop ++ d) ∧ hsOf (buildStmt fc prev s st).2.scopes = hsOf st.scopes :=
+  buildStmt_ext fc s prev st
+
+/-- `accept_ElIfListNode(node, act_if)` whose children are accepted by `accept_ElIfNode` (conditions / blocks by the model's
+    oracles) IS `buildElifs fc si elifs` for the WHOLE list.  Hypotheses: `BlkOK`, `act_if` is an ACT_IF row with Statement_ID
+    `si`, every condition is an expression node `buildExpr` has a clause for (`elifsHead`: no index access / invocation —
+    otherwise the model answers row 0, no V_VAL) -/
+theorem elif_chain_as_in_source (fc : FCtx) (g : G) (i si bi vi : Nat) (elifs : Elifs) (hh : elifsHead elifs = true)
+    (hb : BlkOK g.st) (hi : g.st.pop[i]? = some (.if_ si bi vi)) :
+    callFn (mkEnv fc (elifListNode fc elifs)) ((elifListNode fc elifs).children.length + 0 + 5) accept_ElIfListNode [.node]
+        [("act_if", .inst i)] g
+      = some (.none, { g with st := buildElifs fc si elifs g.st }) :=
+  elif_list_full_eq fc g i si bi vi elifs hh hb hi
+
+/-- `accept_ElseNode(node, act_if)` with the model's block oracle IS the `.some eb` clause of `buildElse`; the row hypotheses of
+    `else_as_in_source` are derived (append-only) -/
+theorem else_clause_as_in_source (fc : FCtx) (g : G) (i si bi vi : Nat) (eb : Block) (hb : BlkOK g.st)
+    (hi : g.st.pop[i]? = some (.if_ si bi vi)) :
+    callFn (mkEnv fc (elseNode fc eb)) 20 accept_ElseNode [.node] [("act_if", .inst i)] g
+      = some (.inst (newSmt none g.st).1, { g with st := buildElse fc si (.some eb) g.st }) :=
+  else_full_eq fc g i si bi vi eb hb hi
+
+/-- `accept_IfNode` on `ifNode fc e b elifs els` (condition / block: `exprAcc`, `blockAcc`; elif list: accept_ElIfListNode over
+    accept_ElIfNode; else clause: accept_ElseNode, absent for `Else.none`) IS the `.if_ e b elifs els` clause of `buildStmt` —
+    `if_model_as_in_source` WITHOUT `hEl` / `hE` and without the row hypotheses `hs` / `hv` / `hk`.  Left: `BlkOK`, and the
+    conditions are expression nodes `buildExpr` has a clause for. -/
+theorem if_full_as_in_source (fc : FCtx) (g : G) (n : Nat) (e : Pyx.Prebuild.Expr) (b : Block) (elifs : Elifs) (els : Else)
+    (hb : BlkOK g.st) (he : exprHead e = true) (hh : elifsHead elifs = true) :
+    callFn (mkEnv fc (ifNode fc e b elifs els)) (n + 20) accept_IfNode [.node] [] g
+      = some (.inst (buildStmt fc none (.if_ e b elifs els) g.st).1,
+              { g with st := (buildStmt fc none (.if_ e b elifs els) g.st).2 }) :=
+  if_full_eq fc g n e b elifs els hb he hh
+
+theorem cmpDemoG_blkOK : BlkOK cmpDemoG.st := by
+  intro b hb; exact ⟨true, by simp [cmpDemoG, curBlk] at hb; subst hb; rfl⟩
+
+/-- applied, `if (true) break; elif (false) continue; else control stop; end if;`: the hypotheses are discharged, R682 / R683
+    name the Statement_ID 1 of the if -/
+example : (callFn (mkEnv cmpDemoFc (ifNode cmpDemoFc (.bool "true") (.cons .brk .nil)
+      (.cons (.bool "false") (.cons .cont .nil) .nil) (.some (.cons .ctl .nil)))) (0 + 20) accept_IfNode [.node] [] cmpDemoG).map (·.2.st.pop)
+    = some [.blk true, .smt 0 none, .val 0, .lbo 2 "TRUE", .blk false, .smt 4 none, .brk 5, .if_ 1 4 2,
+            .smt 0 none, .val 0, .lbo 9 "FALSE", .blk false, .smt 11 none, .con 12, .el 8 11 9 1,
+            .smt 0 none, .blk false, .smt 16 none, .ctl 17, .e 15 16 1] := by
+  rw [if_full_as_in_source cmpDemoFc cmpDemoG 0 (.bool "true") (.cons .brk .nil)
+    (.cons (.bool "false") (.cons .cont .nil) .nil) (.some (.cons .ctl .nil)) cmpDemoG_blkOK rfl rfl]
+  decide
+
+/-! `self` as a value, after a CONSERVATIVE extension of the interpreter's tables (Proofs/PbShape.lean: `blankRow2`, `setRef2`,
+    `partnerOk2`, `setElem2`, `relate820g` — reached only where the old tables answered "stuck" / "no such partner"). -/
+
+/-- `accept_SelfAccessNode`: find_symbol(node, 'self'), v_val, V_IRF, R820 to the variable's type (R848 is not in the model:
+    not stored), R801, R808 := the variable — the `.self` clause of `buildExpr`.  Hypothesis: what find_symbol answers is a
+    V_VAR row. -/
+theorem self_access_as_in_source (fc : FCtx) (nd : Node) (g : G) (n : Nat) (hb : BlkOK g.st)
+    (hva : VarAns (lookupVar fc "self" g.st)) :
+    callFn (mkEnv fc nd) (n + 20) accept_SelfAccessNode [.node] [] g
+      = some (.inst (buildExpr fc .self g.st).1, { g with st := (buildExpr fc .self g.st).2 }) :=
+  self_eq fc nd g n hb hva
+
+def selfDemoFc : FCtx := { ees := [], classes := ["DOG"], selfKl := some "DOG" }
+
+/-- applied, in an operation of DOG: `self` is declared on first use (V_VAR 1, V_INT 2), the value is V_VAL 3 / V_IRF 4 → 1 -/
+example : (callFn (mkEnv selfDemoFc {}) (0 + 20) accept_SelfAccessNode [.node] [] cmpDemoG).map (·.2.st.pop)
+    = some [.blk true, .var "self" 0, .vint 1 "DOG", .val 0, .irf 3 1] := by
+  rw [self_access_as_in_source selfDemoFc {} cmpDemoG 0 cmpDemoG_blkOK
+    (VarAns.of_eq (v := 1) (nm := "self") (b := 0) (by decide) (by decide))]
+  decide
+
+/-- … and in a function (no `self`): the look-up answers None, both sides fail and leave 0 in the V_IRF row -/
+example : (callFn (mkEnv cmpDemoFc {}) 20 accept_SelfAccessNode [.node] [] cmpDemoG).map (fun r => (r.2.st.pop, r.2.st.ok))
+    = some ([.blk true, .val 0, .irf 1 0], false) := by decide
+
+/-- accept_CreateObjectNode / accept_SelectFromNode are no longer stuck (ACT_CR: R603, R633, R671; ACT_FIO: R603, R639, R677;
+    the implicit declaration runs the generated helpers v_int / v_ins / v_var).  NOT yet proved for every state: on this state
+    the generated handlers produce exactly the rows of the `.create` / `.selFrom` clauses of `buildStmt` -/
+example : (callFn (mkEnv selfDemoFc { strs := [("variable_name", "d"), ("key_letter", "DOG")] }) 20 accept_CreateObjectNode
+      [.node] [] cmpDemoG).map (fun r => (r.1, r.2.st.pop, r.2.st.ok))
+    = some (.inst 1, [.blk true, .smt 0 none, .var "d" 0, .vint 2 "DOG", .cr 1 2 "DOG"], true) := by decide
+example : (buildStmt selfDemoFc none (.create "d" "DOG") cmpDemoG.st).2.pop
+    = [.blk true, .smt 0 none, .var "d" 0, .vint 2 "DOG", .cr 1 2 "DOG"] := by decide
+example : (callFn (mkEnv selfDemoFc { strs := [("variable_name", "ds"), ("key_letter", "DOG"), ("cardinality", "many"), ("many", "x")] })
+      20 accept_SelectFromNode [.node] [] cmpDemoG).map (fun r => (r.1, r.2.st.pop, r.2.st.ok))
+    = some (.inst 1, [.blk true, .smt 0 none, .var "ds" 0, .vins 2 "DOG", .fio 1 2 "DOG" "many"], true) := by decide
+example : (buildStmt selfDemoFc none (.selFrom "many" "ds" "DOG") cmpDemoG.st).2.pop
+    = [.blk true, .smt 0 none, .var "ds" 0, .vins 2 "DOG", .fio 1 2 "DOG" "many"] := by decide
 
 end PbShape
 
